@@ -1,172 +1,218 @@
------------------------------- MODULE AtomicIntrusiveList -----------------------
+------------------------- MODULE AtomicIntrusiveList -------------------------
 (***************************************************************************)
-(* source/atomic_intrusive_list.cpp, atomic_intrusive_list_impl<false>:    *)
-(* push_back, pop_front, try_remove at single-atomic-access granularity    *)
-(* (the operations v2::async_mutex uses).  Node 0 is the sentinel.  A link *)
-(* is "head" or <<"rest", n>>; a link word holds (val, locked).            *)
+(* source/atomic_intrusive_list.cpp at single-atomic-access granularity:   *)
+(*   push_back, pop_front, try_remove, empty        (v2::async_mutex)      *)
+(*   push_front_unless_latched, latch_and_drain, unlatch, is_latched,      *)
+(*   pop_front of the drained stack-local list      (v2 manual reset event)*)
+(* List 0 is the shared list (sentinel node S(0) = 10, latch sentinel      *)
+(* LS = 20); lists 1, 2 are stack-local targets of latch_and_drain         *)
+(* (sentinels 11, 12).  A link is <<"head", l>> or <<"rest", n>>; a link   *)
+(* word lk[link] holds (val, locked) - the pointer and the per-link lock   *)
+(* bit; self[n] is the node's back-pointer (the link that references it)   *)
+(* or NULL.  NilV is the null pointer value.                               *)
+(* lock(link) (TTAS loop) is one awaiting step; try_lock_checking is the   *)
+(* four accesses tk_a..tk_d (monitored load, link load, monitored re-load  *)
+(* after the fence, CAS).                                                  *)
+(* out[t] is the value the current call returns (history variable, set in  *)
+(* the step that determines it); prim/AtomicIntrusiveListRef maps this     *)
+(* module onto prim/AbstractList.                                          *)
 (* KillNodes = TRUE models the worst case the callers permit: an item's    *)
 (* storage dies right after the thread that obtained it (pop_front /       *)
 (* successful try_remove) returns, since completing a waiter destroys its  *)
 (* operation state; NoDeadAccess then fails (stale READ in                 *)
-(* try_lock_checking - an out-of-scope observation for C15).  With         *)
+(* try_lock_checking - an out-of-scope observation for C15/C16).  With     *)
 (* KillNodes = FALSE the module checks the list protocol itself:           *)
-(*   PopXorRemove   an item is obtained by exactly one of pop/try_remove   *)
-(*   AtRest         no link lock held at rest; chain = live unobtained     *)
-(*   NoItemLost     at rest every pushed item is in the chain or obtained  *)
+(*   PopXorRemove   an item is obtained by at most one pop/try_remove      *)
+(*   AtRest         no link lock held at rest; chains = live unobtained    *)
+(*   NoItemLost     at rest every pushed item is in a chain xor obtained   *)
+(*   SentinelBack   at rest each sentinel's back-pointer is the last link  *)
 (***************************************************************************)
 EXTENDS Naturals, Sequences, FiniteSets, TLC
-CONSTANTS KillNodes, Items, Threads, ProgSet    \* ProgSet: set of [Threads -> Seq(<<op, item>>)], op in {"push","pop","remove"}
-Nodes == Items \cup {0}
+CONSTANTS KillNodes, Items, Threads, ProgSet
+\* ProgSet: set of [Threads -> Seq(<<op, x>>)]; op: "push" i | "pop" l | "remove" i | "empty" 0 |
+\*          "pfront" i | "drain" l | "unlatch" 0 | "islatched" 0
+Lists == {0, 1, 2}
+S(l) == 10 + l
+LS == 20
+NilV == 99
+Sent == {S(l) : l \in Lists} \cup {LS}
+Nodes == Items \cup Sent
 NULL == <<"null", 0>>
-HEAD == <<"head", 0>>
-NilV == 99                                  \* the null link value (0 is the sentinel node)
+Hd(l) == <<"head", l>>
+Rest(n) == <<"rest", n>>
+Links == {Hd(l) : l \in Lists} \cup {Rest(n) : n \in Nodes}
 VARIABLES Progs,      \* the chosen program
-          headL,      \* [val, locked]
-          restL,      \* [Nodes -> [val, locked]]
+          lk,         \* [Links -> [val, locked]]
           self,       \* [Nodes -> link | NULL]
           alive,      \* [Items -> BOOLEAN]
           pc, ip, loc,\* per thread: label, program index, locals
           got,        \* [Items -> set of <<thread, how>>] who obtained the item
+          out,        \* [Threads -> result of the current / last call]
           bad
-vars == <<Progs, headL, restL, self, alive, pc, ip, loc, got, bad>>
-Rest(n) == <<"rest", n>>
-LinkVal(l) == IF l = HEAD THEN headL ELSE restL[l[2]]
-SetLink(l, v) == IF l = HEAD THEN /\ headL' = v /\ UNCHANGED restL
-                 ELSE /\ restL' = [restL EXCEPT ![l[2]] = v] /\ UNCHANGED headL
-NodeOfLink(l) == IF l = HEAD THEN 0 ELSE l[2]          \* the node whose storage holds the link
+vars == <<Progs, lk, self, alive, pc, ip, loc, got, out, bad>>
+U(v) == [val |-> v, locked |-> FALSE]
+K(v) == [val |-> v, locked |-> TRUE]
+None == <<"none", 0>>
+B(b) == IF b THEN 1 ELSE 0
+NodeOfLink(l) == IF l[1] = "head" THEN 0 ELSE l[2]     \* the node whose storage holds the link (0: the list object)
 \* touching a field of item n (its self or its rest word) requires its storage to be alive
 T(n) == IF n \in Items /\ ~alive[n] /\ bad = "ok" THEN "access to a destroyed node" ELSE bad
 TL(l) == T(NodeOfLink(l))
-L0 == [link |-> HEAD, exp |-> HEAD, val |-> 0, first |-> 0, second |-> 0, ret |-> "", item |-> 0]
+IsSentOf(l, n) == IF l = 0 THEN n \in {S(0), LS} ELSE n = S(l)
+L0 == [link |-> Hd(0), exp |-> Hd(0), mon |-> 0, okL |-> "", failL |-> "", val |-> 0, first |-> 0, second |-> 0,
+       item |-> 0, lst |-> 0, nul |-> FALSE]
 Init == /\ Progs \in ProgSet
-        /\ headL = [val |-> 0, locked |-> FALSE]
-        /\ restL = [n \in Nodes |-> [val |-> NilV, locked |-> FALSE]]
-        /\ self = [n \in Nodes |-> IF n = 0 THEN HEAD ELSE NULL]
+        /\ lk = [l \in Links |-> IF l[1] = "head" THEN U(S(l[2])) ELSE U(NilV)]
+        /\ self = [n \in Nodes |-> IF n \in Sent \ {LS} THEN Hd(n - 10) ELSE NULL]
         /\ alive = [i \in Items |-> TRUE]
         /\ pc = [t \in Threads |-> "next"] /\ ip = [t \in Threads |-> 1]
         /\ loc = [t \in Threads |-> L0]
-        /\ got = [i \in Items |-> {}] /\ bad = "ok"
-Go(t, l) == pc' = [pc EXCEPT ![t] = l]
-Set(t, f, v) == loc' = [loc EXCEPT ![t][f] = v]
-Keep == UNCHANGED <<headL, restL, self, alive, ip, got>>
-
+        /\ got = [i \in Items |-> {}] /\ out = [t \in Threads |-> None] /\ bad = "ok"
+\* one step of thread t: new label, new link words, new back-pointers, new locals, new lifetime verdict
+Stp(t, npc, nlk, nself, nloc, nbad) ==
+  /\ pc' = [pc EXCEPT ![t] = npc] /\ lk' = nlk /\ self' = nself /\ loc' = [loc EXCEPT ![t] = nloc] /\ bad' = nbad
+  /\ UNCHANGED <<alive, ip, got, out>>
+StpO(t, npc, nlk, nself, nloc, nbad, r) ==
+  /\ pc' = [pc EXCEPT ![t] = npc] /\ lk' = nlk /\ self' = nself /\ loc' = [loc EXCEPT ![t] = nloc] /\ bad' = nbad
+  /\ out' = [out EXCEPT ![t] = r] /\ UNCHANGED <<alive, ip, got>>
+StpG(t, npc, nlk, nloc, nbad, i, how) ==
+  /\ pc' = [pc EXCEPT ![t] = npc] /\ lk' = nlk /\ loc' = [loc EXCEPT ![t] = nloc] /\ bad' = nbad
+  /\ got' = [got EXCEPT ![i] = @ \cup {<<t, how>>}] /\ UNCHANGED <<self, alive, ip, out>>
+L(t) == loc[t]
+Instant(k) == k \in {"empty", "islatched"}
+FirstLabel(k) == CASE k = "push" -> "pb0" [] k = "pop" -> "pf1" [] k = "remove" -> "tr1"
+                   [] k = "pfront" -> "pu1" [] k = "drain" -> "ld1" [] k = "unlatch" -> "ul1"
 NextOp(t) ==
   /\ pc[t] = "next" /\ ip[t] <= Len(Progs[t])
   /\ LET o == Progs[t][ip[t]] IN
      /\ ip' = [ip EXCEPT ![t] = @ + 1]
-     /\ loc' = [loc EXCEPT ![t] = [L0 EXCEPT !.item = o[2]]]
-     /\ Go(t, IF o[1] = "push" THEN "pb0" ELSE IF o[1] = "pop" THEN "pf1" ELSE "tr1")
-  /\ UNCHANGED <<headL, restL, self, alive, got, bad>>
+     /\ IF Instant(o[1])
+        THEN /\ out' = [out EXCEPT ![t] = IF o[1] = "empty" THEN <<"empty", B(IsSentOf(0, lk[Hd(0)].val))>>
+                                                            ELSE <<"islatched", B(lk[Hd(0)].val = LS)>>]
+             /\ UNCHANGED <<pc, loc>>
+        ELSE /\ out' = [out EXCEPT ![t] = None]
+             /\ loc' = [loc EXCEPT ![t] = [L0 EXCEPT !.item = o[2], !.lst = o[2]]]
+             /\ pc' = [pc EXCEPT ![t] = FirstLabel(o[1])]
+  /\ UNCHANGED <<lk, self, alive, got, bad>>
 
-\* ---- try_lock_checking(link, monitored = node m's self, expected) ; result continues at okL / failL
-TLC_a(t, m, okPrefix, failL) ==      \* first check of the monitored pointer
-  /\ pc[t] = okPrefix \o "_a" /\ bad' = T(m)
-  /\ IF self[m] # loc[t].exp THEN Go(t, failL) ELSE Go(t, okPrefix \o "_b")
-  /\ UNCHANGED <<headL, restL, self, alive, ip, loc, got>>
-TLC_b(t, m, okPrefix, failL) ==      \* load the link word (spins while locked unless monitored changed)
-  /\ pc[t] = okPrefix \o "_b" /\ bad' = TL(loc[t].link)
-  /\ IF LinkVal(loc[t].link).locked
-     THEN /\ self[m] # loc[t].exp /\ Go(t, failL) /\ UNCHANGED loc
-     ELSE /\ Set(t, "val", LinkVal(loc[t].link).val) /\ Go(t, okPrefix \o "_c")
-  /\ UNCHANGED <<headL, restL, self, alive, ip, got>>
-TLC_c(t, m, okPrefix, failL) ==      \* fence; re-check monitored
-  /\ pc[t] = okPrefix \o "_c" /\ bad' = T(m)
-  /\ IF self[m] # loc[t].exp THEN Go(t, failL) ELSE Go(t, okPrefix \o "_d")
-  /\ UNCHANGED <<headL, restL, self, alive, ip, loc, got>>
-TLC_d(t, okPrefix, okL) ==           \* CAS (val, unlocked) -> (val, locked)
-  /\ pc[t] = okPrefix \o "_d" /\ bad' = TL(loc[t].link)
-  /\ IF LinkVal(loc[t].link) = [val |-> loc[t].val, locked |-> FALSE]
-     THEN /\ SetLink(loc[t].link, [val |-> loc[t].val, locked |-> TRUE]) /\ Go(t, okL)
-     ELSE /\ UNCHANGED <<headL, restL>> /\ Go(t, okPrefix \o "_b")
-  /\ UNCHANGED <<self, alive, ip, loc, got>>
-
-\* ---- push_back(item)
-PB0(t) == /\ pc[t] = "pb0" /\ restL' = [restL EXCEPT ![loc[t].item] = [val |-> 0, locked |-> FALSE]]
-          /\ Go(t, "pb1") /\ UNCHANGED <<headL, self, alive, ip, loc, got, bad>>
-PB1(t) == /\ pc[t] = "pb1" /\ loc' = [loc EXCEPT ![t].link = self[0], ![t].exp = self[0]]
-          /\ Go(t, "pbk_a") /\ Keep /\ UNCHANGED bad
-PB3(t) == /\ pc[t] = "pb3" /\ self' = [self EXCEPT ![loc[t].item] = loc[t].link] /\ Go(t, "pb4")
-          /\ UNCHANGED <<headL, restL, alive, ip, loc, got, bad>>
-PB4(t) == /\ pc[t] = "pb4" /\ self' = [self EXCEPT ![0] = Rest(loc[t].item)] /\ Go(t, "pb5")
-          /\ UNCHANGED <<headL, restL, alive, ip, loc, got, bad>>
-PB5(t) == /\ pc[t] = "pb5" /\ bad' = TL(loc[t].link)
-          /\ SetLink(loc[t].link, [val |-> loc[t].item, locked |-> FALSE]) /\ Go(t, "next")
-          /\ UNCHANGED <<self, alive, ip, loc, got>>
-
-\* ---- pop_front
-PF1(t) == /\ pc[t] = "pf1" /\ ~headL.locked
-          /\ IF headL.val = 0 THEN /\ UNCHANGED headL /\ Go(t, "next")        \* empty: lock+unlock merged
-             ELSE /\ headL' = [headL EXCEPT !.locked = TRUE] /\ Go(t, "pf3")
-          /\ Set(t, "first", headL.val) /\ UNCHANGED <<restL, self, alive, ip, got, bad>>
-PF3(t) == /\ pc[t] = "pf3" /\ bad' = T(loc[t].first) /\ ~restL[loc[t].first].locked
-          /\ restL' = [restL EXCEPT ![loc[t].first].locked = TRUE]
-          /\ Set(t, "second", restL[loc[t].first].val) /\ Go(t, "pf4")
-          /\ UNCHANGED <<headL, self, alive, ip, got>>
-PF4(t) == /\ pc[t] = "pf4" /\ bad' = T(loc[t].second)
-          /\ self' = [self EXCEPT ![loc[t].second] = HEAD] /\ Go(t, "pf5")
-          /\ UNCHANGED <<headL, restL, alive, ip, loc, got>>
-PF5(t) == /\ pc[t] = "pf5" /\ bad' = T(loc[t].first)
-          /\ self' = [self EXCEPT ![loc[t].first] = NULL] /\ Go(t, "pf6")
-          /\ UNCHANGED <<headL, restL, alive, ip, loc, got>>
-PF6(t) == /\ pc[t] = "pf6" /\ headL' = [val |-> loc[t].second, locked |-> FALSE] /\ Go(t, "pf7")
-          /\ UNCHANGED <<restL, self, alive, ip, loc, got, bad>>
-PF7(t) == /\ pc[t] = "pf7" /\ bad' = T(loc[t].first)
-          /\ restL' = [restL EXCEPT ![loc[t].first] = [val |-> NilV, locked |-> FALSE]]
-          /\ got' = [got EXCEPT ![loc[t].first] = @ \cup {<<t, "pop">>}] /\ Go(t, "kill")
-          /\ Set(t, "item", loc[t].first) /\ UNCHANGED <<headL, self, alive, ip>>
+\* ---- try_lock_checking(L.link, monitored = self[L.mon], expected = L.exp) ; continues at L.okL / L.failL
+TK_a(t) == /\ pc[t] = "tk_a"
+           /\ Stp(t, IF self[L(t).mon] # L(t).exp THEN L(t).failL ELSE "tk_b", lk, self, L(t), T(L(t).mon))
+TK_b(t) == /\ pc[t] = "tk_b"        \* load the link word (spins while locked unless the monitored pointer changed)
+           /\ IF lk[L(t).link].locked
+              THEN /\ self[L(t).mon] # L(t).exp /\ Stp(t, L(t).failL, lk, self, L(t), TL(L(t).link))
+              ELSE Stp(t, "tk_c", lk, self, [L(t) EXCEPT !.val = lk[L(t).link].val], TL(L(t).link))
+TK_c(t) == /\ pc[t] = "tk_c"        \* fence; re-check monitored
+           /\ Stp(t, IF self[L(t).mon] # L(t).exp THEN L(t).failL ELSE "tk_d", lk, self, L(t), T(L(t).mon))
+TK_d(t) == /\ pc[t] = "tk_d"        \* CAS (val, unlocked) -> (val, locked)
+           /\ IF lk[L(t).link] = U(L(t).val)
+              THEN Stp(t, L(t).okL, [lk EXCEPT ![L(t).link] = K(L(t).val)], self, L(t), TL(L(t).link))
+              ELSE Stp(t, "tk_b", lk, self, L(t), TL(L(t).link))
+\* ---- push_back(item) on list 0
+PB0(t) == /\ pc[t] = "pb0" /\ Stp(t, "pb1", [lk EXCEPT ![Rest(L(t).item)] = U(S(0))], self, L(t), bad)
+PB1(t) == /\ pc[t] = "pb1"
+          /\ Stp(t, "tk_a", lk, self, [L(t) EXCEPT !.link = self[S(0)], !.exp = self[S(0)], !.mon = S(0), !.okL = "pb3", !.failL = "pb1"], bad)
+PB3(t) == /\ pc[t] = "pb3" /\ Stp(t, "pb4", lk, [self EXCEPT ![L(t).item] = L(t).link], L(t), bad)
+PB4(t) == /\ pc[t] = "pb4" /\ Stp(t, "pb5", lk, [self EXCEPT ![S(0)] = Rest(L(t).item)], L(t), bad)
+PB5(t) == /\ pc[t] = "pb5"
+          /\ StpO(t, "next", [lk EXCEPT ![L(t).link] = U(L(t).item)], self, L(t), TL(L(t).link), <<"push", 1>>)
+\* ---- pop_front of list L.lst
+PF1(t) == /\ pc[t] = "pf1" /\ ~lk[Hd(L(t).lst)].locked
+          /\ LET f == lk[Hd(L(t).lst)].val IN
+             IF IsSentOf(L(t).lst, f)                              \* empty: lock + unlock merged
+             THEN StpO(t, "next", lk, self, L(t), bad, <<"pop", 0>>)
+             ELSE Stp(t, "pf3", [lk EXCEPT ![Hd(L(t).lst)] = K(f)], self, [L(t) EXCEPT !.first = f], bad)
+PF3(t) == /\ pc[t] = "pf3" /\ ~lk[Rest(L(t).first)].locked
+          /\ Stp(t, "pf4", [lk EXCEPT ![Rest(L(t).first)].locked = TRUE], self,
+                 [L(t) EXCEPT !.second = lk[Rest(L(t).first)].val], T(L(t).first))
+PF4(t) == /\ pc[t] = "pf4" /\ Stp(t, "pf5", lk, [self EXCEPT ![L(t).second] = Hd(L(t).lst)], L(t), T(L(t).second))
+PF5(t) == /\ pc[t] = "pf5" /\ Stp(t, "pf6", lk, [self EXCEPT ![L(t).first] = NULL], L(t), T(L(t).first))
+PF6(t) == /\ pc[t] = "pf6"
+          /\ StpO(t, "pf7", [lk EXCEPT ![Hd(L(t).lst)] = U(L(t).second)], self, L(t), bad, <<"pop", L(t).first>>)
+PF7(t) == /\ pc[t] = "pf7"
+          /\ StpG(t, "kill", [lk EXCEPT ![Rest(L(t).first)] = U(NilV)], [L(t) EXCEPT !.item = L(t).first], T(L(t).first), L(t).first, "pop")
 \* the caller resumes the waiter, whose completion destroys the operation containing the node
-Kill(t) == /\ pc[t] = "kill" /\ alive' = [alive EXCEPT ![loc[t].item] = ~KillNodes] /\ Go(t, "next")
-           /\ UNCHANGED <<headL, restL, self, ip, loc, got, bad>>
-
+Kill(t) == /\ pc[t] = "kill" /\ alive' = [alive EXCEPT ![L(t).item] = ~KillNodes] /\ pc' = [pc EXCEPT ![t] = "next"]
+           /\ UNCHANGED <<lk, self, ip, loc, got, out, bad>>
 \* ---- try_remove(item)  (called by the item's own stop(): the item is alive during the call)
 TR1(t) == /\ pc[t] = "tr1"
-          /\ IF self[loc[t].item] = NULL THEN /\ Go(t, "next") /\ UNCHANGED loc
-             ELSE /\ loc' = [loc EXCEPT ![t].link = self[loc[t].item], ![t].exp = self[loc[t].item]] /\ Go(t, "trk_a")
-          /\ Keep /\ UNCHANGED bad
-TR3(t) == /\ pc[t] = "tr3"
-          /\ IF self[loc[t].item] # loc[t].link
-             THEN /\ bad' = TL(loc[t].link)
-                  /\ SetLink(loc[t].link, [val |-> loc[t].val, locked |-> FALSE])
-                  /\ Go(t, IF self[loc[t].item] = NULL THEN "next" ELSE "tr1")
-             ELSE /\ UNCHANGED <<headL, restL, bad>> /\ Go(t, "tr4")
-          /\ UNCHANGED <<self, alive, ip, loc, got>>
-TR4(t) == /\ pc[t] = "tr4" /\ ~restL[loc[t].item].locked
-          /\ restL' = [restL EXCEPT ![loc[t].item].locked = TRUE]
-          /\ Set(t, "second", restL[loc[t].item].val) /\ Go(t, "tr5")
-          /\ UNCHANGED <<headL, self, alive, ip, got, bad>>
-TR5(t) == /\ pc[t] = "tr5" /\ bad' = T(loc[t].second)
-          /\ self' = [self EXCEPT ![loc[t].second] = loc[t].link] /\ Go(t, "tr6")
-          /\ UNCHANGED <<headL, restL, alive, ip, loc, got>>
-TR6(t) == /\ pc[t] = "tr6" /\ self' = [self EXCEPT ![loc[t].item] = NULL] /\ Go(t, "tr7")
-          /\ UNCHANGED <<headL, restL, alive, ip, loc, got, bad>>
-TR7(t) == /\ pc[t] = "tr7" /\ bad' = TL(loc[t].link)
-          /\ SetLink(loc[t].link, [val |-> loc[t].second, locked |-> FALSE]) /\ Go(t, "tr8")
-          /\ UNCHANGED <<self, alive, ip, loc, got>>
-TR8(t) == /\ pc[t] = "tr8"
-          /\ restL' = [restL EXCEPT ![loc[t].item] = [val |-> NilV, locked |-> FALSE]]
-          /\ got' = [got EXCEPT ![loc[t].item] = @ \cup {<<t, "remove">>}] /\ Go(t, "kill")
-          /\ UNCHANGED <<headL, self, alive, ip, loc, bad>>
+          /\ IF self[L(t).item] = NULL
+             THEN StpO(t, "next", lk, self, L(t), T(L(t).item), <<"remove", 0>>)
+             ELSE Stp(t, "tk_a", lk, self, [L(t) EXCEPT !.link = self[L(t).item], !.exp = self[L(t).item], !.mon = L(t).item,
+                                                        !.okL = "tr3", !.failL = "tr1"], T(L(t).item))
+TR3(t) == /\ pc[t] = "tr3"          \* re-load item->self under the lock
+          /\ IF self[L(t).item] = L(t).link THEN Stp(t, "tr4", lk, self, L(t), bad)
+             ELSE Stp(t, "tr3u", lk, self, [L(t) EXCEPT !.nul = (self[L(t).item] = NULL)], bad)
+TR3u(t) == /\ pc[t] = "tr3u"        \* unlock(*head_ptr, head_val); return false / retry
+           /\ IF L(t).nul THEN StpO(t, "next", [lk EXCEPT ![L(t).link] = U(L(t).val)], self, L(t), TL(L(t).link), <<"remove", 0>>)
+                          ELSE Stp(t, "tr1", [lk EXCEPT ![L(t).link] = U(L(t).val)], self, L(t), TL(L(t).link))
+TR4(t) == /\ pc[t] = "tr4" /\ ~lk[Rest(L(t).item)].locked
+          /\ Stp(t, "tr5", [lk EXCEPT ![Rest(L(t).item)].locked = TRUE], self, [L(t) EXCEPT !.second = lk[Rest(L(t).item)].val], bad)
+TR5(t) == /\ pc[t] = "tr5" /\ Stp(t, "tr6", lk, [self EXCEPT ![L(t).second] = L(t).link], L(t), T(L(t).second))
+TR6(t) == /\ pc[t] = "tr6" /\ Stp(t, "tr7", lk, [self EXCEPT ![L(t).item] = NULL], L(t), bad)
+TR7(t) == /\ pc[t] = "tr7"
+          /\ StpO(t, "tr8", [lk EXCEPT ![L(t).link] = U(L(t).second)], self, L(t), TL(L(t).link), <<"remove", 1>>)
+TR8(t) == /\ pc[t] = "tr8" /\ StpG(t, "kill", [lk EXCEPT ![Rest(L(t).item)] = U(NilV)], L(t), bad, L(t).item, "remove")
+\* ---- push_front_unless_latched(item) on list 0
+PU1(t) == /\ pc[t] = "pu1" /\ ~lk[Hd(0)].locked
+          /\ LET f == lk[Hd(0)].val IN
+             IF f = LS THEN StpO(t, "next", lk, self, L(t), bad, <<"pfront", 0>>)
+                       ELSE Stp(t, "pu2", [lk EXCEPT ![Hd(0)] = K(f)], self, [L(t) EXCEPT !.first = f], bad)
+PU2(t) == /\ pc[t] = "pu2" /\ Stp(t, "pu3", [lk EXCEPT ![Rest(L(t).item)] = U(L(t).first)], self, L(t), bad)
+PU3(t) == /\ pc[t] = "pu3" /\ Stp(t, "pu4", lk, [self EXCEPT ![L(t).first] = Rest(L(t).item)], L(t), T(L(t).first))
+PU4(t) == /\ pc[t] = "pu4" /\ Stp(t, "pu5", lk, [self EXCEPT ![L(t).item] = Hd(0)], L(t), bad)
+PU5(t) == /\ pc[t] = "pu5" /\ StpO(t, "next", [lk EXCEPT ![Hd(0)] = U(L(t).item)], self, L(t), bad, <<"pfront", 1>>)
+\* ---- latch_and_drain(target = list L.lst) on list 0
+LD1(t) == /\ pc[t] = "ld1" /\ ~lk[Hd(0)].locked
+          /\ LET f == lk[Hd(0)].val IN
+             IF f = LS THEN StpO(t, "next", lk, self, L(t), bad, <<"drain", 0>>)
+                       ELSE Stp(t, IF f = S(0) THEN "lde2" ELSE "lda", [lk EXCEPT ![Hd(0)] = K(f)], self, [L(t) EXCEPT !.first = f], bad)
+LDe2(t) == /\ pc[t] = "lde2" /\ Stp(t, "lde3", lk, [self EXCEPT ![S(0)] = NULL], L(t), bad)
+LDe3(t) == /\ pc[t] = "lde3" /\ Stp(t, "lde4", lk, [self EXCEPT ![LS] = Hd(0)], L(t), bad)
+LDe4(t) == /\ pc[t] = "lde4" /\ StpO(t, "next", [lk EXCEPT ![Hd(0)] = U(LS)], self, L(t), bad, <<"drain", 1>>)
+LDa(t) == /\ pc[t] = "lda"          \* lock the sentinel's predecessor link (the last real node's rest)
+          /\ Stp(t, "tk_a", lk, self, [L(t) EXCEPT !.link = self[S(0)], !.exp = self[S(0)], !.mon = S(0), !.okL = "ld5", !.failL = "lda"], bad)
+LD5(t) == /\ pc[t] = "ld5" /\ Stp(t, "ld6", lk, [self EXCEPT ![S(0)] = NULL], L(t), bad)
+LD6(t) == /\ pc[t] = "ld6" /\ Stp(t, "ld7", lk, [self EXCEPT ![LS] = Hd(0)], L(t), bad)
+LD7(t) == /\ pc[t] = "ld7" /\ Stp(t, "ld8", lk, [self EXCEPT ![S(L(t).lst)] = L(t).link], L(t), bad)
+LD8(t) == /\ pc[t] = "ld8" /\ Stp(t, "ld9", [lk EXCEPT ![Hd(L(t).lst)] = U(L(t).first)], self, L(t), bad)
+LD9(t) == /\ pc[t] = "ld9" /\ Stp(t, "ld10", lk, [self EXCEPT ![L(t).first] = Hd(L(t).lst)], L(t), T(L(t).first))
+LD10(t) == /\ pc[t] = "ld10" /\ Stp(t, "ld11", [lk EXCEPT ![L(t).link] = U(S(L(t).lst))], self, L(t), TL(L(t).link))
+LD11(t) == /\ pc[t] = "ld11" /\ StpO(t, "next", [lk EXCEPT ![Hd(0)] = U(LS)], self, L(t), bad, <<"drain", 1>>)
+\* ---- unlatch() on list 0
+UL1(t) == /\ pc[t] = "ul1" /\ ~lk[Hd(0)].locked
+          /\ IF lk[Hd(0)].val = LS THEN Stp(t, "ul2", [lk EXCEPT ![Hd(0)] = K(LS)], self, L(t), bad)
+                                   ELSE StpO(t, "next", lk, self, L(t), bad, <<"unlatch", 0>>)
+UL2(t) == /\ pc[t] = "ul2" /\ Stp(t, "ul3", lk, [self EXCEPT ![LS] = NULL], L(t), bad)
+UL3(t) == /\ pc[t] = "ul3" /\ Stp(t, "ul4", lk, [self EXCEPT ![S(0)] = Hd(0)], L(t), bad)
+UL4(t) == /\ pc[t] = "ul4" /\ StpO(t, "next", [lk EXCEPT ![Hd(0)] = U(S(0))], self, L(t), bad, <<"unlatch", 1>>)
 
-Step(t) == \/ NextOp(t) \/ PB0(t) \/ PB1(t) \/ PB3(t) \/ PB4(t) \/ PB5(t)
-           \/ TLC_a(t, 0, "pbk", "pb1") \/ TLC_b(t, 0, "pbk", "pb1") \/ TLC_c(t, 0, "pbk", "pb1") \/ TLC_d(t, "pbk", "pb3")
+Step(t) == \/ NextOp(t) \/ TK_a(t) \/ TK_b(t) \/ TK_c(t) \/ TK_d(t)
+           \/ PB0(t) \/ PB1(t) \/ PB3(t) \/ PB4(t) \/ PB5(t)
            \/ PF1(t) \/ PF3(t) \/ PF4(t) \/ PF5(t) \/ PF6(t) \/ PF7(t) \/ Kill(t)
-           \/ TR1(t) \/ TR3(t) \/ TR4(t) \/ TR5(t) \/ TR6(t) \/ TR7(t) \/ TR8(t)
-           \/ TLC_a(t, loc[t].item, "trk", "tr1") \/ TLC_b(t, loc[t].item, "trk", "tr1")
-           \/ TLC_c(t, loc[t].item, "trk", "tr1") \/ TLC_d(t, "trk", "tr3")
+           \/ TR1(t) \/ TR3(t) \/ TR3u(t) \/ TR4(t) \/ TR5(t) \/ TR6(t) \/ TR7(t) \/ TR8(t)
+           \/ PU1(t) \/ PU2(t) \/ PU3(t) \/ PU4(t) \/ PU5(t)
+           \/ LD1(t) \/ LDe2(t) \/ LDe3(t) \/ LDe4(t) \/ LDa(t) \/ LD5(t) \/ LD6(t) \/ LD7(t) \/ LD8(t) \/ LD9(t) \/ LD10(t) \/ LD11(t)
+           \/ UL1(t) \/ UL2(t) \/ UL3(t) \/ UL4(t)
 AllDone == \A t \in Threads : pc[t] = "next" /\ ip[t] > Len(Progs[t])
 Next == (\E t \in Threads : Step(t) /\ UNCHANGED Progs) \/ (AllDone /\ UNCHANGED vars)
 Spec == Init /\ [][Next]_vars
 
+\* ---------------------------------------------------------------- properties
 NoDeadAccess == bad = "ok"
 PopXorRemove == \A i \in Items : Cardinality(got[i]) <= 1
 RECURSIVE Walk(_, _)
-Walk(n, k) == IF n = 0 \/ k = 0 THEN <<>> ELSE <<n>> \o Walk(restL[n].val, k - 1)
-AtRest == AllDone => /\ ~headL.locked /\ \A n \in Nodes : ~restL[n].locked
-                     /\ LET chain == Walk(headL.val, Cardinality(Items) + 1) IN
-                        /\ \A i \in 1..Len(chain) : alive[chain[i]] /\ got[chain[i]] = {}
-Pushed == {i \in Items : \E t \in Threads : \E k \in 1..Len(Progs[t]) : Progs[t][k] = <<"push", i>>}
-NoItemLost == AllDone => LET chain == Walk(headL.val, Cardinality(Items) + 1) IN
-                         \A i \in Pushed : (\E k \in 1..Len(chain) : chain[k] = i) # (got[i] # {})
-\* the sentinel's back-pointer designates the last link at rest
-SentinelBack == AllDone => LinkVal(self[0]).val = 0
+Walk(n, k) == IF n \in Sent \/ n = NilV \/ k = 0 THEN <<>> ELSE <<n>> \o Walk(lk[Rest(n)].val, k - 1)
+Chain(l) == Walk(lk[Hd(l)].val, Cardinality(Items) + 1)
+InChain(l, i) == \E k \in 1..Len(Chain(l)) : Chain(l)[k] = i
+AtRest == AllDone => /\ \A l \in Links : ~lk[l].locked
+                     /\ \A l \in Lists : \A k \in 1..Len(Chain(l)) : alive[Chain(l)[k]] /\ got[Chain(l)[k]] = {}
+\* items whose insertion took effect
+Pushed == {i \in Items : \E t \in Threads : \E k \in 1..Len(Progs[t]) : Progs[t][k] \in {<<"push", i>>, <<"pfront", i>>}}
+NoItemLost == AllDone => \A i \in Items :
+                 /\ Cardinality({l \in Lists : InChain(l, i)}) <= 1
+                 /\ (got[i] # {}) => \A l \in Lists : ~InChain(l, i)
+                 /\ (self[i] # NULL) <=> \E l \in Lists : InChain(l, i)
+\* at rest a sentinel's back-pointer designates the link that points to it
+SentinelBack == AllDone => \A n \in Sent : self[n] # NULL => lk[self[n]].val = n
 =============================================================================
